@@ -45,6 +45,10 @@ type Case struct {
 	// Move (connection IDs both ways): during the first write phase the client's datagrams arrive from another
 	// address, so the server's path-validation messages (RRC) are numbered concurrently with its writers
 	Move bool `json:"move,omitempty"`
+	// FailWC / FailWS: the transport refuses these WriteTo calls of the client / server (counted from the start of
+	// the connection): nothing leaves for them, the library sees an error in the middle of a batch of datagrams
+	FailWC []int `json:"failwc,omitempty"`
+	FailWS []int `json:"failws,omitempty"`
 }
 
 func epsFor(c *Case) (cl, sv scen.EP) {
@@ -98,139 +102,159 @@ func run(c Case, r *pbt.R) {
 		env := scen.NewEnv()
 		env.Log = &scen.LogSink{Keep: os.Getenv("VERIF_DEBUG") != ""}
 		p := scen.NewPair(env, &cEP, &sEP)
+		for _, k := range c.FailWC {
+			if p.C.EP.WriteFail == nil {
+				p.C.EP.WriteFail = map[int]bool{}
+			}
+			p.C.EP.WriteFail[k] = true
+		}
+		for _, k := range c.FailWS {
+			if p.S.EP.WriteFail == nil {
+				p.S.EP.WriteFail = map[int]bool{}
+			}
+			p.S.EP.WriteFail[k] = true
+		}
 		defer p.Close()
 		p.Net.Faults["C"] = c.FC
 		p.Net.Faults["S"] = c.FS
 		p.Handshake(20 * time.Minute)
-		if !(p.C.OK() && p.S.OK()) {
+		hsOK := p.C.OK() && p.S.OK()
+		if !hsOK {
 			r.Class("handshake-failed")
 			if c.Dual != "" {
 				r.Class("handshake-failed-dual-" + c.Dual)
 			}
-
-			return
+			if is13 || len(c.FailWC)+len(c.FailWS) == 0 {
+				return
+			}
+			// a transport that refused a datagram may well end the handshake; what did leave (the alert included)
+			// is still judged: DTLS 1.2 record numbers are in the clear
+			r.Class("handshake-failed-after-refused-datagram")
+			scen.Settle()
 		}
 		effHS := p.Net.EffectiveFaults()
 		p.Net.Heal()
-		p.C.StartReader()
-		p.S.StartReader()
-		scen.Settle()
-		writeErrs := map[string]int{}
-		var wmu sync.Mutex
-		phase := func(tag byte) {
-			var wg sync.WaitGroup
-			launch := func(sd *scen.Side, n int) {
-				for w := 0; w < n; w++ {
-					wg.Add(1)
-					go func(w int) {
-						defer wg.Done()
-						for i := 0; i < c.PerW; i++ {
-							if _, err := sd.Conn.Write([]byte{tag, byte(w), byte(i), 0xC0, 0x9C}); err != nil {
-								wmu.Lock()
-								writeErrs[sd.Name+":"+err.Error()]++
-								wmu.Unlock()
-							}
-						}
-					}(w)
-				}
-			}
-			moving := c.Move && tag == 1 && c.CIDC > 0 && c.CIDS > 0
-			if moving {
-				p.Net.Redirect["B"] = "C"
-				p.Net.SrcRewrite = func(ev *vnet.Event) string {
-					if ev.From == "C" {
-						return "B"
-					}
-
-					return ""
-				}
-			}
-			launch(p.C, c.WritersC)
-			launch(p.S, c.WritersS)
-			for a := 0; a < c.Alerts; a++ {
-				// an epoch-0 application_data record makes the endpoint emit an unexpected_message alert
-				junk := []byte{23, 0xfe, 0xfd, 0, 0, 0, 0, 0, 0, 0, byte(200 + a), 0, 1, 0x41}
-				p.Net.Inject("C", "S", junk)
-				p.Net.Inject("S", "C", junk)
-			}
-			if is13 {
-				for u := 0; u < c.Updates; u++ {
-					for _, sd := range []*scen.Side{p.C, p.S} {
-						wg.Add(1)
-						go func(sd *scen.Side, u int) {
-							defer wg.Done()
-							ctx, cancel := context.WithTimeout(context.Background(), 2*time.Minute)
-							defer cancel()
-							_ = sd.Conn.UpdateKeys(ctx, dtls.KeyUpdateOptions{RequestPeerUpdate: u%2 == 1})
-						}(sd, u)
-					}
-				}
-			}
-			wg.Wait()
-			scen.Settle()
-			if moving {
-				time.Sleep(3 * time.Second) // path-challenge retransmissions
-				scen.Settle()
-				p.Net.SrcRewrite = nil
-				for _, ev := range p.Net.Events() {
-					if ev.From == "S" && ev.To == "B" {
-						r.Class("server-sent-to-the-new-address")
-
-						break
-					}
-				}
-				r.Class("client-address-moved")
-			}
-		}
-		phase(1)
 		exported := false
-		if c.Export != "" && !is13 {
-			sd, ep := p.C, &cEP
-			if c.Export == "S" {
-				sd, ep = p.S, &sEP
-			}
-			var mut func([]byte) []byte
-			if c.NearMax > 0 {
-				mut = func(raw []byte) []byte {
-					m, err := scen.DecodeState(raw)
-					if err != nil {
-						return raw
+		writeErrs := map[string]int{}
+		if hsOK {
+			p.C.StartReader()
+			p.S.StartReader()
+			scen.Settle()
+			var wmu sync.Mutex
+			phase := func(tag byte) {
+				var wg sync.WaitGroup
+				launch := func(sd *scen.Side, n int) {
+					for w := 0; w < n; w++ {
+						wg.Add(1)
+						go func(w int) {
+							defer wg.Done()
+							for i := 0; i < c.PerW; i++ {
+								if _, err := sd.Conn.Write([]byte{tag, byte(w), byte(i), 0xC0, 0x9C}); err != nil {
+									wmu.Lock()
+									writeErrs[sd.Name+":"+err.Error()]++
+									wmu.Unlock()
+								}
+							}
+						}(w)
 					}
-					m.SequenceNumber = maxSeq + 1 - uint64(c.NearMax) //nolint:gosec
-					out, err := scen.EncodeState(m)
-					if err != nil {
-						return raw
-					}
+				}
+				moving := c.Move && tag == 1 && c.CIDC > 0 && c.CIDS > 0
+				if moving {
+					p.Net.Redirect["B"] = "C"
+					p.Net.SrcRewrite = func(ev *vnet.Event) string {
+						if ev.From == "C" {
+							return "B"
+						}
 
-					return out
+						return ""
+					}
+				}
+				launch(p.C, c.WritersC)
+				launch(p.S, c.WritersS)
+				for a := 0; a < c.Alerts; a++ {
+					// an epoch-0 application_data record makes the endpoint emit an unexpected_message alert
+					junk := []byte{23, 0xfe, 0xfd, 0, 0, 0, 0, 0, 0, 0, byte(200 + a), 0, 1, 0x41}
+					p.Net.Inject("C", "S", junk)
+					p.Net.Inject("S", "C", junk)
+				}
+				if is13 {
+					for u := 0; u < c.Updates; u++ {
+						for _, sd := range []*scen.Side{p.C, p.S} {
+							wg.Add(1)
+							go func(sd *scen.Side, u int) {
+								defer wg.Done()
+								ctx, cancel := context.WithTimeout(context.Background(), 2*time.Minute)
+								defer cancel()
+								_ = sd.Conn.UpdateKeys(ctx, dtls.KeyUpdateOptions{RequestPeerUpdate: u%2 == 1})
+							}(sd, u)
+						}
+					}
+				}
+				wg.Wait()
+				scen.Settle()
+				if moving {
+					time.Sleep(3 * time.Second) // path-challenge retransmissions
+					scen.Settle()
+					p.Net.SrcRewrite = nil
+					for _, ev := range p.Net.Events() {
+						if ev.From == "S" && ev.To == "B" {
+							r.Class("server-sent-to-the-new-address")
+
+							break
+						}
+					}
+					r.Class("client-address-moved")
 				}
 			}
-			if _, err := p.ExportImport(sd, env, ep, mut); err != nil {
-				r.Failf("C09|export-import-failed", "export/import of %s: %v", c.Export, err)
+			phase(1)
+			if c.Export != "" && !is13 {
+				sd, ep := p.C, &cEP
+				if c.Export == "S" {
+					sd, ep = p.S, &sEP
+				}
+				var mut func([]byte) []byte
+				if c.NearMax > 0 {
+					mut = func(raw []byte) []byte {
+						m, err := scen.DecodeState(raw)
+						if err != nil {
+							return raw
+						}
+						m.SequenceNumber = maxSeq + 1 - uint64(c.NearMax) //nolint:gosec
+						out, err := scen.EncodeState(m)
+						if err != nil {
+							return raw
+						}
 
-				return
-			}
-			exported = true
-			sd.StartReader()
-			scen.Settle()
-			phase(2)
-			if c.Export2 {
-				// second seam, e.g. with the sequence space already exhausted by phase 2
-				if _, err := p.ExportImport(sd, env, ep, nil); err != nil {
-					r.Failf("C09|export-import-failed", "second export/import of %s: %v", c.Export, err)
+						return out
+					}
+				}
+				if _, err := p.ExportImport(sd, env, ep, mut); err != nil {
+					r.Failf("C09|export-import-failed", "export/import of %s: %v", c.Export, err)
 
 					return
 				}
+				exported = true
 				sd.StartReader()
 				scen.Settle()
-				phase(3)
-				r.Class("second-export")
+				phase(2)
+				if c.Export2 {
+					// second seam, e.g. with the sequence space already exhausted by phase 2
+					if _, err := p.ExportImport(sd, env, ep, nil); err != nil {
+						r.Failf("C09|export-import-failed", "second export/import of %s: %v", c.Export, err)
+
+						return
+					}
+					sd.StartReader()
+					scen.Settle()
+					phase(3)
+					r.Class("second-export")
+				}
 			}
-		}
-		if c.Close {
-			_ = p.C.Conn.Close()
-			scen.Settle()
-		}
+			if c.Close {
+				_ = p.C.Conn.Close()
+				scen.Settle()
+			}
+		} // hsOK
 		if os.Getenv("VERIF_DEBUG") != "" {
 			fmt.Println(p.Dump())
 			fmt.Println(strings.Join(env.Log.Lines, "\n"))
@@ -436,6 +460,15 @@ func gen(t *rapid.T) Case {
 	c.Dual = rapid.SampledFrom([]string{"", "", "", "C", "C", "S"}).Draw(t, "dual")
 	if c.CIDC > 0 {
 		c.Move = rapid.IntRange(0, 2).Draw(t, "move") == 0
+	}
+	// DTLS 1.2 only: three DTLS 1.3 cases with a refused datagram and key updates ran into the wall-clock watchdog
+	// (endpoints spinning in real time); not triaged, see DESIGN
+	if !is13 && rapid.IntRange(0, 3).Draw(t, "failw") == 0 {
+		c.FailWC = rapid.SliceOfNDistinct(rapid.IntRange(0, 24), 0, 2, rapid.ID[int]).Draw(t, "failwc")
+		c.FailWS = rapid.SliceOfNDistinct(rapid.IntRange(0, 24), 0, 2, rapid.ID[int]).Draw(t, "failws")
+		if c.MTU == 0 && rapid.Bool().Draw(t, "failmtu") {
+			c.MTU = rapid.IntRange(100, 300).Draw(t, "failmtuv") // flights of several datagrams
+		}
 	}
 
 	return c
